@@ -7,11 +7,11 @@ from . import common, assignmatrix
 ID = 'C02'
 LEVEL = 'exploration'
 TIERS = {
-    'quick': {'cases': 72 + 1600, 'wall': 100, 'chunk': 8},
-    'thorough': {'cases': 72 + 60000, 'wall': 1500, 'chunk': 16},
+    'quick': {'cases': 204 + 1600, 'wall': 100, 'chunk': 8},
+    'thorough': {'cases': 204 + 60000, 'wall': 1500, 'chunk': 16},
 }
-RULE = ('cases 0..71: the ASSIGNMENT MATRIX with ?? (seed independent): `v = E(v)` / `v += E(v)` for a global, local '
-        'and parameter variable with ?? inside E in twelve shapes. Further cases: Random(f"{seed}:C02:{i}") picks a swarm configuration and generates a program whose '
+RULE = ('cases 0..203: the ASSIGNMENT MATRIX with ?? (seed independent): `v = E(v)` / `v += E(v)` / `int y = E(v)` / `f(E(v))` for a global, local '
+        'and parameter variable with ?? inside E in seventeen shapes. Further cases: Random(f"{seed}:C02:{i}") picks a swarm configuration and generates a program whose '
         'you-functions contain 1-5 segments (try/undo and try/stop blocks - also inside loops, left by '
         'break/continue/return, with handlers that contain further tries - preempt blocks, defeat '
         'functions incl. preemptive and recursive ones, ?? with side-effecting operands, calls to '
